@@ -15,12 +15,13 @@
 (***************************************************************************)
 EXTENDS Naturals, Integers, Sequences, FiniteSets, TLC, Json
 
-CONSTANTS Vals, Keys, MaxLen, QMax      \* element values, dict keys, list/queue length bound, queue maxsize (0 = unbounded)
+CONSTANTS Vals, Keys, MaxLen, QMax,     \* element values, dict keys, list/queue length bound, queue maxsize (0 = unbounded)
+          KindSet                        \* the containers explored by this configuration
 
 VARIABLES kind, st
 vars == <<kind, st>>
 
-Kinds == {"counter", "list", "dict", "set", "queue", "pqueue"}
+Kinds == KindSet
 None == "None"
 Err(e) == [err |-> e]
 Ok(v) == [ok |-> v]
